@@ -5,6 +5,8 @@
 package rtp
 
 import (
+	"fmt"
+
 	"github.com/cnotch/ipchub/av/codec"
 	"github.com/cnotch/ipchub/av/codec/aac"
 )
@@ -54,6 +56,9 @@ func (aacdp *aacDepacketizer) Depacketize(packet *Packet) (err error) {
 
 func (aacdp *aacDepacketizer) depacketizeFor2ByteAUHeader(packet *Packet) (err error) {
 	payload := packet.Payload()
+	if len(payload) < 2 {
+		return fmt.Errorf("aac payload of %d bytes has no AU-headers-length", len(payload))
+	}
 
 	// AU-headers-length 2bytes
 	auHeadersLength := uint16(0) | (uint16(payload[0]) << 8) | uint16(payload[1])
@@ -61,6 +66,9 @@ func (aacdp *aacDepacketizer) depacketizeFor2ByteAUHeader(packet *Packet) (err e
 	auHeadersCount := auHeadersLength >> 4
 	// AU 帧数据偏移位置
 	framesPayloadOffset := 2 + int(auHeadersCount)<<1
+	if framesPayloadOffset > len(payload) {
+		return fmt.Errorf("aac payload of %d bytes announces %d AU headers", len(payload), auHeadersCount)
+	}
 
 	auHeaders := payload[2:framesPayloadOffset]
 	framesPayload := payload[framesPayloadOffset:]
@@ -68,6 +76,9 @@ func (aacdp *aacDepacketizer) depacketizeFor2ByteAUHeader(packet *Packet) (err e
 	for i := 0; i < int(auHeadersCount); i++ {
 		auHeader := uint16(0) | (uint16(auHeaders[0]) << 8) | uint16(auHeaders[1])
 		frameSize := auHeader >> aacdp.indexLength
+		if int(frameSize) > len(framesPayload) {
+			return fmt.Errorf("aac AU of %d bytes announced, %d bytes left in the payload", frameSize, len(framesPayload))
+		}
 		pts := aacdp.rtp2ntp(frameTimeStamp) + ptsDelay
 		frame := &codec.Frame{
 			MediaType: codec.MediaTypeAudio,
